@@ -62,7 +62,7 @@ struct StackElem ROW_OLD, ROW_NEW;
 void h_elemstack_levels(void)
 {
   int op; _Bool recycled; XMLSize_t rd;
-  VERIF_INPUT(SELF); VERIF_INPUT(ROW_OLD); VERIF_INPUT(ROW_NEW); VERIF_INPUT(GW); VERIF_INPUT(NEXTSIZE); VERIF_INPUT(op); VERIF_INPUT(recycled); VERIF_INPUT(rd);
+  VERIF_INPUT(SELF); VERIF_INPUT(ROW_OLD); VERIF_INPUT(ROW_NEW); VERIF_INPUT(GW); VERIF_INPUT(GZ); VERIF_INPUT(NEXTSIZE); VERIF_INPUT(op); VERIF_INPUT(recycled); VERIF_INPUT(rd);
   VERIF_ASSUME(fStackCapacity >= 4 && fStackCapacity <= VERIF_STK_MAX && fStackTop <= fStackCapacity);
   fStack = malloc(fStackCapacity * sizeof(struct StackElem *));
   NEXTBUF = malloc(NEXTSIZE); NEXTUSED = 0;
@@ -73,6 +73,7 @@ void h_elemstack_levels(void)
   if (fStackTop < fStackCapacity) fStack[fStackTop] = recycled ? &ROW_OLD : 0;
   NEWTOP = (fStackTop < fStackCapacity && recycled) ? &ROW_OLD : &ROW_NEW;
   verif_thrown = 0;
+  if (op != 0) GZ = fStackTop;
   if (op == 0) ElemStack_expandStack();
   else if (op == 1) ElemStack_addLevel();
   else if (op == 2) ElemStack_addLevel_decl((void *)&ROW_OLD, rd);
